@@ -46,10 +46,9 @@ ASSUMPTIONS = [
     "low-index-multiple rule and every positional multiple and unterminated); commands that first fill single-valued "
     "positionals after the `--`, Append positionals with num_args(1) and value terminators are covered by "
     "C05_trailing_loop_is_absorb/C05_trailing_outcome, C05_escape_line_sim and the differential run only",
-    "prefix preservation (C05_*_prefix_same) is proved for the entries of the level that consumed the `--` (command-line "
-    "entries outside `touched` = the positional, its groups, its overrides relation); entries of ancestor levels (whose "
-    "state at the dispatch is proved identical for both tails by C05_escape_line_sim) after their own env/default phases, "
-    "and help/version outcomes of the phases after the loop, are differential only",
+    "prefix preservation (C05_*_prefix_same): at the level that consumed the `--` for command-line entries outside "
+    "`touched` (= the positional, its groups, its overrides relation); at the levels above it for all entries; "
+    "help/version outcomes of the phases after the loop are differential only",
     "no multicall, no Command::defer, built-in value parsers only; OsStr = bytes (Unix)",
 ]
 TECHNIQUE = ("Coq proof (the parse loop with trailing_values set equals a classification-free loop `absorb`; one walk over "
@@ -69,7 +68,7 @@ LEVEL_TEXT = ("Machine-checked theorems (Coq 8.16, closed under the global conte
               "only at a declared delimiter, not at all with dont_delimit_trailing_values); an external subcommand selected "
               "by the prefix receives `--` and the tail verbatim.  Two successful parses of the same prefix with different "
               "tails (the empty one included) agree on every command-line entry of that level outside the positional's "
-              "overrides/groups relation.  A help/version outcome of the token loop on `pre -- tail` is the outcome for "
+              "overrides/groups relation and on all entries of the levels above it.  A help/version outcome of the token loop on `pre -- tail` is the outcome for "
               "every other tail: no tail token causes it (the invariant that a Help/Version argument is never pending is "
               "proved for all reachable states).  Underneath: once trailing_values is set the loop equals, for every "
               "command, token list and state, a loop that only compares a token with a value terminator and pushes it.  "
@@ -79,8 +78,8 @@ LEVEL_TEXT = ("Machine-checked theorems (Coq 8.16, closed under the global conte
               "implementation's output.")
 LEVEL_NOTE = ("Trusted: Coq kernel, extraction, OCaml driver, Rust harness, generators. Differential/oracle only: commands "
               "outside esc_class / sink_from (hyphen-accepting arguments, several single-valued positionals filled after the "
-              "`--`, terminators, globals, ignore_errors), entries of ancestor levels after a dispatch, help/version "
-              "outcomes of the phases after the loop.")
+              "`--`, terminators, globals, ignore_errors), help/version outcomes of the phases after the loop."
+              "")
 
 SEP = " ;; "
 INNOCUOUS = [b"zz", b"w7", b"q"]
